@@ -71,7 +71,7 @@ class _convert_aware:
     """C01: an aware value is re-rendered in the zone: same instant, the tz database's fields and fold"""
 
     def applies(self, dt, raise_on_unknown_times):
-        return is_aware_dt(dt) and dt.cls is _dt.datetime
+        return is_aware_dt(dt)
 
     def requires(self, dt, raise_on_unknown_times):
         return [("valid_input", stdlib.valid_dt(dt)), ("input_is_a_rendering", zones.is_rendering(dt))]
@@ -136,7 +136,21 @@ class tz_convert:
         def applies(self, dt, raise_on_unknown_times):
             return False  # verification-only case (call sites are served by `aware`)
 
-    cases = {"naive": naive, "aware": aware, "aware_same_zone": aware_same_zone}
+    class aware_pendulum(_convert_aware):
+        """a pendulum DateTime operand (in_timezone): goes through DateTime.astimezone"""
+
+        def applies(self, dt, raise_on_unknown_times):
+            return False
+
+        def args(F):
+            import pendulum as _p
+
+            zone, zc = _tz1(F)
+            src, sc = stdlib.fresh_zone(F, Timezone, "src", k=1)
+            dt, dc = stdlib.fresh_datetime(F, _p.DateTime, "dt", tzinfo=src)
+            return dict(self=zone, dt=dt, raise_on_unknown_times=False), [zc, sc, dc]
+
+    cases = {"naive": naive, "aware": aware, "aware_same_zone": aware_same_zone, "aware_pendulum": aware_pendulum}
 
 
 @contract("pendulum.tz.timezone.FixedTimezone.convert", props=["C01", "C02", "C03"])
@@ -201,3 +215,69 @@ def _datetime_contract(qualname, zone_maker):
 
 _datetime_contract("pendulum.tz.timezone.Timezone.datetime", _tz1)
 _datetime_contract("pendulum.tz.timezone.FixedTimezone.datetime", fresh_fixed)
+
+
+# ========================================================================================== zone construction (C01)
+from pyvc.world import SymName
+
+
+def zone_named(F, name_holder):
+    """the pendulum Timezone for the same tz-database entry as `name_holder` (a zone object): same rules"""
+    return Obj(Timezone, key=name_holder.key, T=name_holder.T, o=name_holder.o)
+
+
+@contract("pendulum.timezone", props=["C01"], assumed=True)
+class timezone_fn:
+    """pendulum.timezone(name): assumed for symbolic names - the returned zone has the tz-database rules of that
+    name (ZoneInfo lookup is data, not code); proved for integer offsets through fixed_timezone"""
+
+    class by_name:
+        applies = staticmethod(lambda name: isinstance(name, SymName))
+
+        def value(name):
+            if getattr(name, "model", None) is None:
+                raise ValueError("symbolic zone name without rules")
+            T, o = name.model
+            return Obj(Timezone, key=name, T=T, o=o)
+
+    class by_offset:
+        applies = staticmethod(lambda name: sym.is_intlike(name))
+
+        def args(F):
+            return dict(name=F.int("offset"))
+
+        def requires(name):
+            return [("offset_range", And(gt(name, -D), lt(name, D)))]
+
+        def value(name):
+            return stdlib.fixed_zone(FixedTimezone, name, None)
+
+    cases = {"by_name": by_name, "by_offset": by_offset}
+
+
+@contract("pendulum.tz.fixed_timezone", props=["C01"], assumed=True)
+class fixed_timezone_fn:
+    """memoised constructor (A-PURE): an object equal to FixedTimezone(offset)"""
+
+    def value(offset):
+        return stdlib.fixed_zone(FixedTimezone, offset, None)
+
+
+@contract("pendulum.tz.timezone.FixedTimezone.__init__", props=["C01"])
+class fixed_init:
+    options = {"returns_self": True}
+
+    def args(F):
+        return dict(self=Obj(FixedTimezone), offset=F.int("offset"), name=None), [And(gt(F.named_int("offset!0"), -D * 400), True)]
+
+    def requires(self, offset, name):
+        return [("offset_is_int", sym.is_intlike(offset))]
+
+    raises = [(OverflowError, "timedelta_range", lambda self, offset, name: Not(stdlib.td_in_range(sym.mul(offset, M))))]
+
+    def result(F, self, offset, name):
+        return stdlib.fixed_zone(FixedTimezone, offset, name)
+
+    def ensures(result, self, offset, name):
+        return [("offset_recorded", eq(result._offset, offset)), ("utcoffset_is_that_many_seconds", eq(result._utcoffset.us, sym.mul(offset, M))),
+                ("has_a_name", result._name is not None)]
